@@ -52,7 +52,9 @@ def plan(tier, seed):
 
 def floors(tier):
     return {'evaluations': 50000, 'distinct_nontrivial': 2000, 'mapping_checked': 100000,
-            'error_positions_checked': 1000, 'errors_on_later_lines': 100}
+            'error_positions_checked': 1000, 'errors_on_later_lines': 100,
+            'histkeys:error_located_via': 9, 'hist:error_located_via:get_latex_braced_group': 50,
+            'hist:error_located_via:expression_parser': 50}
 
 
 def setup(rec):
@@ -150,8 +152,9 @@ def check_case(case, rec):
     else:
         try:
             lw = walker(s, tolerant=False, **offs)
-            from pylatexenc.latexnodes.parsers import LatexGeneralNodesParser
-            lw.parse_content(LatexGeneralNodesParser())
+            entry = case.get('entry', 'general')
+            rec.hist('error_entry_point', entry)
+            ENTRY[entry](lw, case.get('start', 0))
             rec.hist('error_outcome', 'parsed')
             return
         except LatexWalkerParseError as e:
@@ -164,6 +167,7 @@ def check_case(case, rec):
             got = (e.lineno, e.colno)
             err, reading = check_mapping(s, pos, got, offs)
             rec.monitor('error_positions_checked')
+            rec.hist('error_located_via', case.get('entry', 'general'))
             if s.count('\n', 0, pos):
                 rec.monitor('errors_on_later_lines')
             if reading:
@@ -181,6 +185,31 @@ def check_case(case, rec):
             rec.hist('error_outcome', 'other:' + type(e).__name__)
 
 
+def _entries():
+    from pylatexenc.latexnodes import parsers as P
+    import warnings
+    warnings.simplefilter('ignore')
+    return {
+        'general': lambda lw, p: lw.parse_content(P.LatexGeneralNodesParser()),
+        'get_latex_nodes': lambda lw, p: lw.get_latex_nodes(pos=p),
+        'get_latex_braced_group': lambda lw, p: lw.get_latex_braced_group(p),
+        'get_latex_braced_group[': lambda lw, p: lw.get_latex_braced_group(p, brace_type='['),
+        'get_latex_expression': lambda lw, p: lw.get_latex_expression(p),
+        'get_latex_maybe_optional_arg': lambda lw, p: lw.get_latex_maybe_optional_arg(p),
+        'get_latex_environment': lambda lw, p: lw.get_latex_environment(p),
+        'delimited_group_parser': lambda lw, p: lw.parse_content(
+            P.LatexDelimitedGroupParser(delimiters=('{', '}')), token_reader=lw.make_token_reader(pos=p)),
+        'expression_parser': lambda lw, p: lw.parse_content(
+            P.LatexExpressionParser(), token_reader=lw.make_token_reader(pos=p)),
+        'math_parser': lambda lw, p: lw.parse_content(
+            P.LatexMathParser(math_mode_delimiters=None), token_reader=lw.make_token_reader(pos=p)),
+    }
+
+
+ENTRY = _entries()
+OPENERS = {'get_latex_braced_group': '{', 'get_latex_braced_group[': '[', 'get_latex_maybe_optional_arg': '[',
+           'delimited_group_parser': '{', 'get_latex_expression': '{', 'expression_parser': '{', 'math_parser': '$',
+           'get_latex_environment': '\\begin{center}'}
 FAULTS = ['}', '{', '$', '\\end{x}', '\\begin{x}', '\\)', '\\]', '\\(', '\\[', '\\textbf$', '\\verb']
 LINES = ['abc', '', '  x', '\\textbf{a}', '$x$', '{y}', '% c', '\\begin{itemize}\\item z\\end{itemize}', 'a\rb']
 
@@ -230,6 +259,15 @@ def run_shard(desc, rec):
             case = {'kind': 'error', 's': s, 'offs': offs}
             if j % 97 == 0:
                 rec.sample(case)
+            check_case(case, rec)
+            # the same faulty text read through the other entry points (whose outermost parser is not the general
+            # nodes parser): inside the construct each of them reads, after some leading lines
+            entry = sorted(ENTRY)[j % len(ENTRY)]
+            lead = ''.join(rng.choice(['', 'ab\n', '\n', 'x \n\n']) for _ in range(2))
+            body = OPENERS.get(entry, '') + s + rng.choice(['', '', '}', ']', '$'])
+            rec.case()
+            case = {'kind': 'error', 's': lead + body, 'offs': offs, 'entry': entry, 'start': len(lead)}
+            rec.nontrivial((case['s'], entry))
             check_case(case, rec)
 
 LEVEL_TEXT = ('Exploration with a reference model: every position of every string up to length 8 (quick) / 10 '
